@@ -28,8 +28,9 @@ MIN_OBLIGATIONS = 20
 BG = "pandapower.build_gen"
 NOT_DECIDED = ["not decided: the Q-limit enforcement loop _run_ac_pf_with_qlims_enforced (index loop over a growing set of limited gens: needs a "
                "sum invariant over gens per bus), so 'a gen at its binding limit sits exactly at that limit' is not decided",
-               "not decided: the Newton solver holding PV / reference voltages (A-SOLVE), shunt results (_get_shunt_results is one function "
-               "with wards, xwards and FACTS), motors, asymmetric elements"]
+               "not decided: the Newton solver holding PV / reference voltages (A-SOLVE), motors, asymmetric elements",
+               "not decided: shunts with step characteristic tables (step_dependency_table), svc / ssc / vsc results, the star-point "
+               "losses of trafo3w in _calc_shunts_and_add_on_ppc (trafo3w_losses='star')"]
 
 
 def configure(it):
@@ -99,6 +100,9 @@ def run(vc):
     vc.explore("write_voltage_dependend_load_results", h_zip, max_paths=40)
 
 
+    from contracts import C04_shunt
+    C04_shunt.run(vc)
+
     if not hasattr(vc, "native_standins"):
         vc.native_standins = []
     vc.native_standins.append(dict(
@@ -113,6 +117,10 @@ def classify(ob, model):
 
 
 def replay(ob, model, finding=None):
+    if ob.meta.get("part", "").startswith("shunt"):
+        return {"script": f"# replay of {ob.id}\nfrom replaylib.setpoints import main_shunt\nmain_shunt()\n",
+                "description": "power flow with shunts (steps, own / missing voltage rating, out of service), wards and an xward: voltage law of "
+                               "the results, nodal balance at their buses"}
     return {"script": f"# replay of {ob.id}\nfrom replaylib.setpoints import main\nmain()\n",
             "description": "power flows (with and without voltage angles, ZIP loads, q limits): ext_grid / gen voltages, p*scaling of pq elements, "
                            "ZIP law at the solved voltage"}
